@@ -42,6 +42,7 @@ type Gen struct {
 	// distribution counters, reported in the evidence
 	stats map[string]int
 	cliFocus string // C15: the <id> the next `info` should look at
+	afterCompact bool // the previous op was a compacting delete without zeroing (storage shrank, old bytes may linger)
 }
 
 func (g *Gen) count(k string) { g.stats[k]++ }
@@ -490,6 +491,21 @@ func (g *Gen) nextOp(f *sif.FileImage) *Op {
 		}
 		return &Op{Kind: "sign", S: so}
 	}
+	if g.afterCompact {
+		g.afterCompact = false
+		if r.Chance(1, 2) {
+			// right after storage shrank: an object whose alignment skips over a gap, so that
+			// whatever the backend keeps beyond its new end would show through
+			di := DI{DT: 0x4007, Fail: -1, Data: DataSpec{Lit: r.Bytes(1 + r.Intn(24))},
+				Opts: []DIOpt{{Kind: "align", I: pick(r, []int64{64, 512, 4096, 4096, 65536})}}}
+			if r.Chance(1, 3) {
+				di = DI{DT: 0x4004, Fail: -1, Data: DataSpec{Lit: r.Bytes(1 + r.Intn(24))},
+					Opts: []DIOpt{{Kind: "part", I: int64(1 + r.Intn(5)), J: 1, S: pick(r, archNames)}}}
+			}
+			g.count("op:aligned-add-after-compaction")
+			return &Op{Kind: "add", T: g.topt(), DI: di, Valid: true}
+		}
+	}
 	x := r.Intn(100)
 	switch {
 	case x < 42:
@@ -538,6 +554,7 @@ func (g *Gen) nextOp(f *sif.FileImage) *Op {
 			g.count("reject:del-" + op.Sel.String())
 		}
 		g.count(fmt.Sprintf("op:del z%d c%d", b2i(op.Zero), b2i(op.Compact)))
+		g.afterCompact = op.Compact && !op.Zero
 		return op
 	case x < 74:
 		op := &Op{Kind: "setprim", T: g.topt()}
